@@ -49,6 +49,12 @@ func c19Packet(tag string, h *c19Honest, A, C, Me *clPeer) (*signaling_rpc.Sessi
 	case 2:
 		pkt.Signature.PubKey, _ = cryptoMarshalPub(A)
 	}
+	if pkt.FromPeerId == A.txt && len(pkt.Signature.PubKey) == 0 && rt.Choose(tag+":dataIsDigest", 2) == 1 {
+		// the relay replaces the body of A's message by its BLAKE3 digest (a 32-byte message), keeping the rest
+		pkt.Data = rt.RefBLAKE3(h.fromA.Data)
+		pkt.Signature.SigData = h.fromA.Signature.SigData
+		pkt.Signature.HashType = h.fromA.Signature.HashType
+	}
 	same := rt.And(rt.And(rt.BytesEq(pkt.Data, h.fromA.Data), rt.BytesEq(pkt.Signature.SigData, h.fromA.Signature.SigData)),
 		rt.And(pkt.FromPeerId == h.fromA.FromPeerId, pkt.Signature.HashType == h.fromA.Signature.HashType))
 	return &signaling_rpc.SessionMsg{SignedMsg: pkt, Seqno: rt.U64(tag + ":seqno")}, same
